@@ -16,10 +16,9 @@ func (rs ReportSettings) validate() error {
 		return errors.New("report comment cannot be empty")
 	}
 
-	if rs.Severity != "" {
-		if _, err := checks.ParseSeverity(rs.Severity); err != nil {
-			return err
-		}
+	// severity is a required attribute, an empty value is not a severity.
+	if _, err := checks.ParseSeverity(rs.Severity); err != nil {
+		return err
 	}
 
 	return nil
